@@ -80,6 +80,19 @@ func RunSeed(batch uint64, engine string, i uint64) uint64 {
 	return binary.LittleEndian.Uint64(h[:8])
 }
 
+// Perm returns a random permutation of 0..n-1.
+func (r *RNG) Perm(n int) []int {
+	out := make([]int, n)
+	for i := range out {
+		out[i] = i
+	}
+	for i := n - 1; i > 0; i-- {
+		j := r.Intn(i + 1)
+		out[i], out[j] = out[j], out[i]
+	}
+	return out
+}
+
 // Pattern produces deterministic pseudo-random bytes for (seed, len) so plans
 // stay small: plaintexts are described, not stored.
 func Pattern(seed uint64, n int) []byte {
